@@ -285,6 +285,10 @@ def _gen(rng, name):
         h["ins"] = comp_ins(("h", h["i"]))
     for m in spec["mws"]:
         m["ins"] = comp_ins(("m", m["i"]))
+    if rng.random() < 0.3:
+        # some base constructors are brought in by `bp.import(from![module])` instead of `bp.constructor(..)`
+        pick = [c["i"] for c in ctors if not c["fallible"] and rng.random() < 0.6]
+        spec["ctor_imports"] = {str(i): k for k, i in enumerate(pick)}
     return spec
 
 
